@@ -10,7 +10,7 @@ Open Scope N_scope.
    implementation) departs from `expected`; Proofs/WsdlRefute.v has one witness per clause.
      1  (fixed in /repo e18696d: a soap:header written after the soap:body; clause removed)
      2  rpc: output message not named <operation>Response      (response wrapper named after the message)
-     3  soapAction=""                                           (SOAPAction header omitted)
+     3  (fixed in /repo d4f6af6: soapAction=""; clause removed)
      4  (fixed in /repo 06e543e: style declared nowhere; clause removed)
      5  document style (or header/fault) part given by type    (accessor element invented)
      6  rpc style part given by element                         (element placed without accessor)
@@ -50,7 +50,6 @@ Definition op_findings (e : senv) (d : definitions) (b : binding) (po : pt_opera
   | Some bi, Some pi, Some bo', Some po' =>
       clause_list
         [(2%nat, negb rpc || ostr_eqb (resolve_local d (ptm_ns po') (ptm_message po')) (Some (bo_name bo ++ s_Response)));
-         (3%nat, negb (ostr_eqb (obind (bo_soap bo) so_action) (Some [])));
          (5%nat, rpc || (forallb element_part (selected_of d bi pi) && forallb element_part (selected_of d bo' po')));
          (6%nat, negb rpc || (forallb (fun p => negb (element_part p)) (selected_of d bi pi)
                               && forallb (fun p => negb (element_part p)) (selected_of d bo' po')));
